@@ -50,10 +50,11 @@ func c20Pipeline(c *Ctx, f *ssa.Function, innerName string, rule string) {
 		return nil
 	}
 	// same transformer
-	sameT := tr.Call.Args[0] == rev.Call.Args[0]
+	// (values that come out of a folded helper as joined results are taken on their live outcome)
+	sameT := tr.Call.Args[0] == livePhiValue(rev.Call.Args[0], rev.Block())
 	// inner is called with NewType(translated type)
 	innerArgs := callArgs(inner)
-	tyArg := innerArgs[len(innerArgs)-1]
+	tyArg := livePhiValue(innerArgs[len(innerArgs)-1], inner.Block())
 	okTy := false
 	if nt, ok := tyArg.(*ssa.Call); ok && calleeFullName(nt) == modPath+".NewType" && nt.Call.Args[0] == ext(tr, 0) {
 		okTy = true
@@ -72,7 +73,7 @@ func c20Pipeline(c *Ctx, f *ssa.Function, innerName string, rule string) {
 		if isNilConst(rv[1]) {
 			okv := rv[0] == ext(rev, 0)
 			for _, e := range errs {
-				if e == nil || !knownNil(r.Block(), e, true) {
+				if e == nil || !knownNilVia(r.Block(), e, true) {
 					okv = false
 				}
 			}
@@ -82,11 +83,11 @@ func c20Pipeline(c *Ctx, f *ssa.Function, innerName string, rule string) {
 		// error return: which error is known non-nil here
 		which := -1
 		for k, e := range errs {
-			if e != nil && knownNil(r.Block(), e, false) {
+			if e != nil && knownNilVia(r.Block(), e, false) {
 				which = k
 			}
 		}
-		okE := which >= 0 && errDerives(rv[1], func(v ssa.Value) bool { return v == errs[which] })
+		okE := which >= 0 && errDerivesNonNil(rv[1], r.Block(), func(v ssa.Value) bool { return v == errs[which] })
 		zero := false
 		if cst, ok := stripConv(rv[0]).(*ssa.Const); ok && cst.Value == nil {
 			zero = true
@@ -158,10 +159,13 @@ func runC20(c *Ctx) {
 		tf := litField(al, "tfm")
 		orig := litField(al, "WatchArgs")
 		_, isP := orig.(*ssa.Parameter)
+		if tf != nil {
+			tf = livePhiValue(tf, innerWatch.Block())
+		}
 		okLit = tf != nil && tf == tr.Call.Args[0] && isP && domI(tr, innerWatch)
 	}
 	okTy := false
-	if nt, ok := innerWatch.Call.Args[1].(*ssa.Call); ok && tr != nil && calleeFullName(nt) == modPath+".NewType" {
+	if nt, ok := livePhiValue(innerWatch.Call.Args[1], innerWatch.Block()).(*ssa.Call); ok && tr != nil && calleeFullName(nt) == modPath+".NewType" {
 		for _, r := range *tr.Referrers() {
 			if e, ok := r.(*ssa.Extract); ok && e.Index == 0 && nt.Call.Args[0] == ssa.Value(e) {
 				okTy = true
@@ -239,7 +243,7 @@ func runC20(c *Ctx) {
 			_, isValParam := rev.Call.Args[1].(*ssa.Parameter)
 			_, tfIsField := loadOfTypeField(rev.Call.Args[0], "sourcewrap.wrappedWatchArgs", "tfm")
 			_, recvEmbedded := loadOfTypeField(fwd.Call.Value, "sourcewrap.wrappedWatchArgs", "WatchArgs")
-			okFwd := len(fwd.Call.Args) == 2 && fwd.Call.Args[1] == revVal && revErr != nil && knownNil(fwd.Block(), revErr, true)
+			okFwd := len(fwd.Call.Args) == 2 && livePhiValue(fwd.Call.Args[1], fwd.Block()) == revVal && revErr != nil && knownNilVia(fwd.Block(), revErr, true)
 			_, ctxP := fwd.Call.Args[0].(*ssa.Parameter)
 			// results: forward's result returned; reverse error returned wrapped
 			okRet := true
@@ -251,7 +255,7 @@ func runC20(c *Ctx) {
 				if rv[0] == ssa.Value(fwd) {
 					continue
 				}
-				if revErr != nil && knownNil(r.Block(), revErr, false) && errDerives(rv[0], func(v ssa.Value) bool { return v == revErr }) {
+				if revErr != nil && knownNilVia(r.Block(), revErr, false) && errDerivesNonNil(rv[0], r.Block(), func(v ssa.Value) bool { return v == revErr }) {
 					continue
 				}
 				okRet = false
